@@ -150,8 +150,32 @@ def backward_layout(rng):
     return "\n".join(L) + "\n"
 
 
+ARITH_R = ["add", "sub", "and", "or", "xor", "sll", "srl", "sra", "slt", "sltu", "mul", "mulh", "mulhu",
+           "mulhsu", "div", "divu", "rem", "remu"]
+ARITH_EDGE = [-2147483648, -1, 0, 1, 2147483647, 31, 32, -2147483647]
+
+
+def arith_matrix(rng, per_op=3):
+    """Constant folding at the edges of the 32-bit range: every register-register operator on pairs
+    drawn from {MIN, -1, 0, 1, MAX, 31, 32, MIN+1}; the folded result feeds an address computation
+    and the service number of an environment call, so a wrong constant is a wrong claim on a node
+    that is executed.  (div/rem MIN,-1; shifts by 32; mulh sign cases.)"""
+    out = []
+    must = {"div": [(-2147483648, -1), (5, 0)], "rem": [(-2147483648, -1), (5, 0)],
+            "divu": [(-1, 0), (-2147483648, -1)], "remu": [(-1, 0), (-2147483648, -1)]}
+    for op in ARITH_R:
+        pairs = list(must.get(op, []))
+        while len(pairs) < per_op:
+            pairs.append((rng.choice(ARITH_EDGE), rng.choice(ARITH_EDGE)))
+        for x, y in pairs:
+            out.append(f"main:\n    li t0, {x}\n    li t1, {y}\n    {op} t2, t0, t1\n    mv a0, t2\n"
+                       f"    addi t3, t2, 4\n    li a7, 1\n    ecall\n    mv a0, t3\n    li a7, 1\n    ecall\n"
+                       f"    li a7, 10\n    ecall\n")
+    return out
+
+
 def gen_programs(rng, n, sloppy_choices=(0, 0.1, 0.3), multi=0.15):
-    out = list(CORPUS) + branch_matrix() + ecall_matrix()
+    out = list(CORPUS) + branch_matrix() + ecall_matrix() + arith_matrix(rng)
     for _ in range(max(4, n // 10)):
         out.append(handler_program(rng))
         out.append(backward_layout(rng))
